@@ -38,7 +38,8 @@ CONSTANTS
   SWSets,      \* the watch sets StartWatches may be called with (a set of sequences of wids)
   FixGC,       \* collector only considers composed-resource watches (repair of D2)
   FixSnapshot, \* StartWatches re-reads the active informers under the controller lock (repair of D10)
-  FixStopped   \* a stopped controller refuses late watches (repair of D8)
+  FixStopped,  \* a stopped controller refuses late watches (repair of D8)
+  MaxStopFails \* how often removing an event handler may fail (the informer returns an error) while a controller is stopped
 
 Composed == {w \in Wids : w \notin {"xr", "rev"}}
 G(w) == w      \* every watch id has its own kind in this model (the XR kind, the revision kind, one kind per composed id)
@@ -57,11 +58,12 @@ VARIABLES
   drefs,     \* ... those of them that only an XR that is being deleted (held by a finalizer) references: they still count
   pc, op, arg, cI, aS, used, run,   \* per caller: segment, operation, argument, controller pointer, snapshot, collector locals
   nops,
+  nfail,     \* failed handler removals so far
   bad,       \* ghost: violated step properties
   hist
 
-vars == <<ctl, ninst, srcs, nsrc, srcInst, srcWid, regs, active, cancelled, stopped, refs, drefs, pc, op, arg, cI, aS, used, run, nops, bad, hist>>
-view == <<ctl, ninst, srcs, nsrc, srcInst, srcWid, regs, active, cancelled, stopped, refs, drefs, pc, op, arg, cI, aS, used, run, nops, bad>>
+vars == <<ctl, ninst, srcs, nsrc, srcInst, srcWid, regs, active, cancelled, stopped, refs, drefs, pc, op, arg, cI, aS, used, run, nops, nfail, bad, hist>>
+view == <<ctl, ninst, srcs, nsrc, srcInst, srcWid, regs, active, cancelled, stopped, refs, drefs, pc, op, arg, cI, aS, used, run, nops, nfail, bad>>
 
 Insts == 1..MaxInst
 SrcIds == 1..MaxSrc
@@ -76,7 +78,7 @@ Init ==
   /\ regs = {} /\ active = {} /\ cancelled = {} /\ stopped = {} /\ refs \in SUBSET Composed /\ drefs \in SUBSET refs
   /\ pc = [p \in Procs |-> "idle"] /\ op = [p \in Procs |-> "none"] /\ arg = [p \in Procs |-> <<>>]
   /\ cI = [p \in Procs |-> 0] /\ aS = [p \in Procs |-> {}] /\ used = [p \in Procs |-> {}] /\ run = [p \in Procs |-> {}]
-  /\ nops = [p \in Procs |-> 0] /\ bad = {}
+  /\ nops = [p \in Procs |-> 0] /\ nfail = 0 /\ bad = {}
   /\ hist = << [p |-> 0, op |-> "init", seg |-> 0, c |-> "", a |-> refs, r |-> "", d |-> drefs] >>
 
 Idle(p) == pc[p] = "idle" /\ nops[p] < MaxOps
@@ -104,6 +106,19 @@ Stop(p, c) ==
           /\ ctl' = [ctl EXCEPT ![c] = 0]
   /\ Log(H(p, "Stop", 1, c, {}, "ok")) /\ Done(p)
   /\ UNCHANGED <<ninst, nsrc, srcInst, srcWid, active, refs, drefs, bad>> /\ UNCHANGED Locals
+
+\* Stop(name) when removing the first event handler fails: Stop returns the error with nothing changed - the controller
+\* is still running (and still known to the engine), so that the caller's retry finishes the job.
+StopFails(p, c) ==
+  /\ Idle(p) /\ "Stop" \in OpKinds /\ nfail < MaxStopFails
+  /\ ctl[c] # 0 /\ \E w \in Wids : srcs[ctl[c]][w] \in regs
+  \* (only while none of its watches is lost with its informer: stopping such a source looks the informer up, which
+  \* re-creates it - a failure at that point leaves a started informer without handler behind, and failing informers
+  \* are outside C13's quantifier; the failure is modelled to exercise the error path of Stop, not to widen the property)
+  /\ \A w \in Wids : srcs[ctl[c]][w] # 0 => srcs[ctl[c]][w] \in regs
+  /\ nfail' = nfail + 1
+  /\ Log(H(p, "Stop", 1, c, {}, "err")) /\ Done(p)
+  /\ UNCHANGED Eng /\ UNCHANGED <<refs, drefs, bad>> /\ UNCHANGED Locals
 
 IsRunning(p, c) ==
   /\ Idle(p) /\ "IsRunning" \in OpKinds
@@ -209,11 +224,12 @@ ChangeRefs(p) ==
         /\ Log([p |-> p, op |-> "ChangeRefs", seg |-> 1, c |-> "", a |-> r, r |-> "ok", d |-> d])
   /\ Done(p) /\ UNCHANGED Eng /\ UNCHANGED bad /\ UNCHANGED Locals
 
-Next == \E p \in Procs :
+Other(p) ==
           \/ \E c \in Ctrls : Start(p, c) \/ Stop(p, c) \/ IsRunning(p, c) \/ GetWatches(p, c) \/ GC1(p, c)
                                \/ (\E ws \in SWSets : SW1(p, c, ws)) \/ (\E ws \in (SUBSET Wids) \ {{}} : StopWatches(p, c, ws))
           \/ SW2(p) \/ GC2(p) \/ GC3(p) \/ ChangeRefs(p)
           \/ \E g \in Wids : RemoveInformer(p, g)
+Next == \E p \in Procs : (Other(p) /\ UNCHANGED nfail) \/ \E c \in Ctrls : StopFails(p, c)
 Spec == Init /\ [][Next]_vars
 
 ----------------------------------------------------------------------------
